@@ -126,7 +126,12 @@ def build_cube(shape, fam, wseed, ecs, with_shape=True):
     from ndcube import NDCube
     rng = random.Random(wseed)
     wcs = W.make_wcs(rng, tuple(shape), fam, with_shape)
-    cube = NDCube(C.payload(tuple(shape), 0), wcs=wcs)
+    cube = None
+    if wseed % 7 == 3:
+        # (one cube in seven is reached by slicing a larger one: see common.via_slicing)
+        cube = C.via_slicing(C.payload(tuple(shape), 0), wcs, wseed)
+    if cube is None:
+        cube = NDCube(C.payload(tuple(shape), 0), wcs=wcs)
     return add_ecs(cube, ecs, list(shape))
 
 
